@@ -14,6 +14,8 @@ ALL6 = [dict(mod=m, ty=t) for m, t in SOLVERS]
 
 def arm_flag(arm):
     p = arm["pat"]
+    while p.get("k") == "PBind" and p.get("sub") is not None:      # `flag @ (A | B) => ..`
+        p = p["sub"]
     d = p.get("def") or p.get("ctor_of") or ""
     if d.startswith(FLAG):
         return d[len(FLAG):]
@@ -344,14 +346,31 @@ def xout_rule(rep, f):
         if not latch_arms:
             rep.ok("R-XOUT-STEP", key, "no XOut request is latched", nontrivial=False)
             continue
-        # the request can come from any call of the callback - the initial one included: every site latches it
-        sites = solout_matches(body["body"])
-        deaf = [mm for mm in sites if not any(arm_flag(a) == "XOut" and tast.find(a["body"], lambda z: z.get("k") == "Assign") for a in mm["arms"])]
+        # the request can come from any call of the callback - the initial one included: every site latches it (in an XOut
+        # arm of a match on the answer, or under `if let ControlFlag::XOut(..) = answer`)
+        xids = {a_["l"].get("id") for arm in latch_arms for a_ in tast.find(arm["body"], lambda z: z.get("k") == "Assign" and z["l"].get("k") == "Path")}
+        calls_ = tast.calls(body["body"], SOLOUT)
+
+        def hears(call):
+            ids = {l["pat"]["id"] for l in tast.find(body["body"], lambda z: z.get("k") == "Let" and z["pat"].get("k") == "PBind" and z.get("init") is call)}
+            is_answer = lambda e: e is call or (isinstance(e, dict) and e.get("k") == "Path" and e.get("res") == "local" and e.get("id") in ids)
+            stores = lambda blk: tast.contains(blk, lambda z: z.get("k") == "Assign" and z["l"].get("k") == "Path" and z["l"].get("id") in xids)
+            for mm in tast.find(body["body"], lambda z: z.get("k") == "Match" and is_answer(z["scrut"])):
+                for a in mm["arms"]:
+                    pats = a["pat"]["sub"].get("pats", [a["pat"]["sub"]]) if (a["pat"].get("k") == "PBind" and a["pat"].get("sub") is not None) else a["pat"].get("pats", [a["pat"]]) if a["pat"].get("k") == "POr" else [a["pat"]]
+                    if any((q.get("def") or q.get("ctor_of") or "") == FLAG + "XOut" for q in pats) and stores(a["body"]):
+                        return True
+            for ii in tast.find(body["body"], lambda z: z.get("k") == "If" and z["cond"].get("k") == "LetExpr" and is_answer(z["cond"]["init"])):
+                pd = ii["cond"]["pat"].get("def") or ii["cond"]["pat"].get("ctor_of") or ""
+                if pd == FLAG + "XOut" and stores(ii["then"]):
+                    return True
+            return False
+        deaf = [c for c in calls_ if not hears(c)]
         if deaf:
             rep.violation("R-XOUT-STEP", key + ":latch", "%d of the %d callback sites of a solver that honours XOut drop(s) the request: the point asked for there gets no interpolant"
-                          % (len(deaf), len(sites)), deaf[0].get("sp"))
+                          % (len(deaf), len(calls_)), deaf[0].get("sp"))
         else:
-            rep.ok("R-XOUT-STEP", key + ":latch", "all %d callback sites latch an XOut request" % len(sites))
+            rep.ok("R-XOUT-STEP", key + ":latch", "all %d callback sites latch an XOut request" % len(calls_))
         try:
             variants = rk.analyse_variants(f, fn)
         except rk.AnalysisError as e:
